@@ -16,6 +16,7 @@ import (
 	"runtime"
 	"sort"
 	"sync"
+	"time"
 
 	intoto "github.com/in-toto/in-toto-golang/in_toto"
 )
@@ -25,6 +26,7 @@ type job struct {
 	dir    string
 	key    intoto.Key
 	layout *intoto.Metablock
+	rel    string // the job's directory relative to the process's working directory
 }
 
 func mkKey() intoto.Key {
@@ -125,6 +127,28 @@ func do(j job, yield bool) string {
 		}
 		b, _ := md.(*intoto.Metablock).GetSignableRepresentation()
 		return string(b) + fmt.Sprint(md.VerifySignature(j.key) == nil)
+	case "relrecord":
+		// the job's own directory, named RELATIVE to the process's working directory (which no library
+		// call may change): several recordings while other goroutines run commands with a run directory
+		res := ""
+		for it := 0; it < 6; it++ {
+			m, err := intoto.RecordArtifacts([]string{filepath.Join(j.rel, "sub")}, []string{"sha256"}, nil, nil, false, false)
+			if err != nil {
+				res += "err:" + err.Error() + ";"
+				continue
+			}
+			res += fmt.Sprint(len(m)) + ";"
+			time.Sleep(2 * time.Millisecond)
+		}
+		return res
+	case "rundir":
+		// a command run IN the job's directory (runDir), the directory itself recorded by absolute path
+		md, err := intoto.InTotoRun("s", j.dir, []string{j.dir}, []string{j.dir}, []string{"sh", "-c", "sleep 0.03; echo hi > out.txt"}, j.key, []string{"sha256"}, nil, nil, false, true, false)
+		if err != nil {
+			return "err:" + err.Error()
+		}
+		l := md.GetPayload().(intoto.Link)
+		return canonArts(l.Materials) + "|" + canonArts(l.Products)
 	case "verify":
 		// full verification of the job's own chain, several times (own layout object, own key map, own directory)
 		pub := j.key
@@ -169,12 +193,13 @@ func main() {
 	}
 	base, _ := os.MkdirTemp("", "verif-race-")
 	defer os.RemoveAll(base)
-	kinds := []string{"record", "verify", "run", "signload", "verify", "dsse", "record", "verify"}
+	os.Chdir(base) // relative paths below are relative to this directory
+	kinds := []string{"record", "verify", "run", "relrecord", "signload", "rundir", "verify", "dsse", "relrecord", "record", "rundir", "verify"}
 	var jobs []job
 	for i := 0; i < *n; i++ {
 		d := filepath.Join(base, fmt.Sprintf("w%d", i))
 		setupTree(d, i, *symlinks)
-		jb := job{kind: kinds[i%len(kinds)], dir: d, key: mkKey()}
+		jb := job{kind: kinds[i%len(kinds)], dir: d, key: mkKey(), rel: fmt.Sprintf("w%d", i)}
 		if jb.kind == "verify" {
 			jb.layout = setupVerify(d, i, jb.key)
 		}
